@@ -361,6 +361,13 @@ func (p *Prog) solve(pr *prepared, cfg SolveConfig) *Outcome {
 		if last != "sat" {
 			wg.Add(1)
 			go func() { defer wg.Done(); run("z3", lastFile, "z3", cfg.Timeout) }()
+			if pr.hasQ && len(levels) > 1 {
+				// the smallest instantiation level had only a short budget: give it the full one
+				// (some goals need none of the quantified facts but more than a few seconds)
+				f0, _ := p.gen(pr, levels[0])
+				wg.Add(1)
+				go func() { defer wg.Done(); run("z3-new", f0, "z3-new/L0-full", cfg.Timeout) }()
+			}
 		}
 		if pr.hasQ {
 			fq, _ := p.gen(pr, -1)
